@@ -1,56 +1,36 @@
-"""C02: known-finding classes as predicates on the INPUT (operator triple / template / dialect)."""
+"""C02: known-finding classes as predicates on the INPUT (operator triple / template / dialect).
+Only OPEN findings are classes here; a repaired defect that comes back matches nothing and is a VIOLATION
+(and even a matching id would be refused by Check.disagreement unless its status is "open")."""
 
 F = {
     "F1": "F1-sqlite-div-i-integer-division",
-    "F2": "F2-between-unparenthesised",
-    "F3": "F3-double-minus-comment",
-    "F4": "F4-comparison-chain",
+    "F3b": "F3b-neg-of-minus-leading-sstring",
     "F5": "F5-template-strength-dishonest",
     "F16": "F16-generic-div-f-integer",
+    # repaired in /repo (status "fixed"): only used by the directed replays, which must NOT reproduce them
     "F17": "F17-timestamp-literal-text-compare",
-    "F30": "F30-mul-right-operand-same-level",
     "N1": "C02-N1-regex-op-undocumented",
-    "N2": "C02-N2-equality-under-comparison",
     "N3": "C02-N3-regexp-strength",
     "N4": "C02-N4-bigquery-degrees-hole",
 }
 
-CMP4 = {"op:<", "op:>", "op:<=", "op:>="}
-EQ2 = {"op:=", "op:<>"}
 DISHONEST = {"tmpl:div_i", "tmpl:math.log"}
 
 
 def triple_class(tr):
     """the known class of one structurally bad (parent, site, child) triple of Model/SqlCompat.v, or None.
-    Mirrors Props/C02.v `known_triple`."""
+    Mirrors Model/SqlCompat.v `known_triple`."""
     p, site, c = tr
-    if p == "between" or c == "between":
-        return F["F2"]
     if c in DISHONEST:
         return F["F5"]
-    if c == "tmpl:regex_search":
-        return F["N3"]
-    if p in CMP4 and c in EQ2:
-        return F["N2"]
-    if site == 1 and ((p in CMP4 and c in CMP4) or (p in EQ2 and c in EQ2)):
-        return F["F4"]
-    if p == "op:*" and site == 1 and c in ("tmpl:mod", "tmpl:div_f"):
-        return F["F30"]
     return None
 
 
 def pair_class(pr):
-    """an unlicensed rotated operator pair (spellings) deeper on a spine"""
+    """an unlicensed rotated operator pair (spellings) deeper on a spine: only a dishonest template (top-level
+    `*` or `/` under a declared strength 100) still produces one"""
     o, o2 = pr
-    cmp4 = {"<", ">", "<=", ">="}
-    eq2 = {"=", "<>"}
-    if (o in cmp4 and o2 in cmp4) or (o in eq2 and o2 in eq2):
-        return F["F4"]
-    if o == "*" and o2 in ("%", "/"):
-        return F["F30"]
-    if o2 in ("BETWEEN",) or o in ("BETWEEN",):
-        return F["F2"]
-    if o in ("%", "/") and o2 in ("*", "/"):
+    if o in ("%", "/", "*") and o2 in ("*", "/"):
         return F["F5"]
     return None
 
@@ -59,13 +39,11 @@ def classify_e2e(case):
     bt = case.get("bad_triples")
     sql = case.get("sql") or ""
     msql = case.get("model_sql") or ""
-    if "--" in msql and ("--" in sql):
-        return F["F3"]
     if bt:
         triples, pairs = bt
         unknown = [t for t in triples if triple_class(t) is None] + [p for p in pairs if pair_class(p) is None]
         if unknown:
-            return None          # a bad triple outside every known class: a new defect
+            return None          # a bad triple outside every known class: a new (or returned) defect
         for t in triples:
             return triple_class(t)
         for p in pairs:
